@@ -313,6 +313,9 @@ def world(ctx, rnd, T):
         if tr == 0:
             for cfgp in ((16, 1e9, None), (8, 1e9, None), (8, 2.5e9, 64)):
                 plan += [("gv", cfgp)] + [("call", nm) for nm in sorted(F)]
+            # odd numbers of samples per slot (half-slot arithmetic, buffers of odd length), the waveform generators called in turn
+            for cfgp in ((5, 1e9, None), (9, 2.5e9, 3)):
+                plan += [("gv", cfgp)] + [("call", nm) for nm in ("DAC-nrz", "DAC-rz", "DAC-nrz", "DAC-rz", "DAC-gauss", "DAC-rz", "SAMPLER", "PPM_ENCODER", "SDD", "LPF", "DAC-rz")]
         forced = list(plan)
         for step in range(nlen + len(plan)):
             gb, rb = iid(wl.gv_raw()), iid(wl.rng_raw())
@@ -321,7 +324,7 @@ def world(ctx, rnd, T):
             if todo is not None:
                 u = 0.0 if todo[0] == "gv" else 0.2
             if u < 0.14:
-                cfg = todo[1] if todo is not None else (rnd.choice([8, 16]), rnd.choice([1e9, 2.5e9]), rnd.choice([None, 64]))
+                cfg = todo[1] if todo is not None else (rnd.choice([8, 16, 5, 9]), rnd.choice([1e9, 2.5e9]), rnd.choice([None, 64, 3]))
                 rs = np.random.get_state()
                 wl.configure(*cfg)
                 with warnings.catch_warnings():
